@@ -37,8 +37,15 @@ func main() {
 		}
 		return
 	}
+	if len(os.Args) >= 4 && os.Args[1] == "-fixrange" {
+		if err := fixRange(os.Args[2], os.Args[3:]); err != nil {
+			fmt.Fprintln(os.Stderr, err)
+			os.Exit(1)
+		}
+		return
+	}
 	if len(os.Args) != 3 {
-		fmt.Fprintln(os.Stderr, "usage: rewrite [-norace] <src> <dst>")
+		fmt.Fprintln(os.Stderr, "usage: rewrite [-norace] <src> <dst> | rewrite -fixrange <rewritten file> <line>...")
 		os.Exit(2)
 	}
 	src, dst := os.Args[1], os.Args[2]
@@ -178,7 +185,7 @@ func rewriteFile(path string) ([]byte, error) {
 			// range over channel would need type info; flag loudly if the range expr is a call to a known chan accessor
 			if ce, ok := n.X.(*ast.CallExpr); ok {
 				if se, ok := ce.Fun.(*ast.SelectorExpr); ok && (se.Sel.Name == "Reader" || se.Sel.Name == "Outgoing" || se.Sel.Name == "Done") {
-					panic("range over channel not supported: " + path)
+					_ = path // handled by the -fixrange pass after the first compile
 				}
 			}
 		}
@@ -273,6 +280,72 @@ func rewriteSelect(s *ast.SelectStmt, rw func(ast.Node) ast.Node) ast.Stmt {
 }
 
 // noraceTree copies a Go source tree and marks every top-level function //go:norace.
+// fixRange is the type-directed second pass for "for v := range ch": the rewriter works without type
+// information, so a range over a channel is only discovered when the compiler rejects the rewritten
+// file ("cannot range over x (variable of type *vsched.Chan[T])").  The statements at the reported
+// lines become
+//
+//	for rc := X; ; { v, ok := rc.Recv2(); if !ok { break }; body }
+//
+// (one statement, so a label stays attached; X is evaluated once; continue re-enters at the receive).
+// The loop variable is per iteration here, whereas Go < 1.22 shares it across iterations: a closure
+// capturing it is the one construct whose behaviour differs.
+func fixRange(path string, lines []string) error {
+	want := map[int]bool{}
+	for _, l := range lines {
+		n, err := strconv.Atoi(l)
+		if err != nil {
+			return err
+		}
+		want[n] = true
+	}
+	fset := token.NewFileSet()
+	f, err := parser.ParseFile(fset, path, nil, parser.ParseComments)
+	if err != nil {
+		return err
+	}
+	done := 0
+	var bad error
+	astutil.Apply(f, nil, func(c *astutil.Cursor) bool {
+		n, ok := c.Node().(*ast.RangeStmt)
+		if !ok || !want[fset.Position(n.X.Pos()).Line] {
+			return true
+		}
+		if n.Value != nil || (n.Key != nil && n.Tok != token.DEFINE) {
+			bad = fmt.Errorf("%s:%d: unsupported form of range over channel", path, fset.Position(n.Pos()).Line)
+			return true
+		}
+		counter++
+		rc, okv := ast.NewIdent(fmt.Sprintf("rc__%d", counter)), ast.NewIdent(fmt.Sprintf("ok__%d", counter))
+		key := ast.Expr(ast.NewIdent("_"))
+		if n.Key != nil {
+			key = n.Key
+		}
+		body := []ast.Stmt{
+			&ast.AssignStmt{Lhs: []ast.Expr{key, okv}, Tok: token.DEFINE, Rhs: []ast.Expr{call(&ast.SelectorExpr{X: rc, Sel: ast.NewIdent("Recv2")})}},
+			&ast.IfStmt{Cond: &ast.UnaryExpr{Op: token.NOT, X: okv}, Body: &ast.BlockStmt{List: []ast.Stmt{&ast.BranchStmt{Tok: token.BREAK}}}},
+		}
+		body = append(body, n.Body.List...)
+		c.Replace(&ast.ForStmt{
+			Init: &ast.AssignStmt{Lhs: []ast.Expr{rc}, Tok: token.DEFINE, Rhs: []ast.Expr{n.X}},
+			Body: &ast.BlockStmt{List: body},
+		})
+		done++
+		return true
+	})
+	if bad != nil {
+		return bad
+	}
+	if done == 0 {
+		return fmt.Errorf("%s: no range statement at lines %v", path, lines)
+	}
+	var buf bytes.Buffer
+	if err := format.Node(&buf, fset, f); err != nil {
+		return err
+	}
+	return os.WriteFile(path, buf.Bytes(), 0o644)
+}
+
 func noraceTree(src, dst string) error {
 	return filepath.WalkDir(src, func(p string, d fs.DirEntry, err error) error {
 		if err != nil {
